@@ -147,6 +147,7 @@ _sched("C02", "Theorems over every accepted trace: the non-deferred entries of o
               "Loop order (list, row-major matrix) and call variables: Props.C02Vars over the Vars model, tied by domain `vars`.")
 PROPS["C02"]["domains"] = [{"name": "sched"}, {"name": "vars", "env": {"VERIF_VARS_ENVDEP": "0"}}]
 PROPS["C02"]["lean"] = "Props.C02All"
+PROPS["C02"]["prop_modules"] = ["Props.C02", "Props.C02Vars"]
 _sched("C03", "Theorems over every accepted trace: after a command failure that is not ignored no later non-deferred entry of that activation starts "
               "(failStopMon); the failure propagates to callers (task: entries) and dependents (deps), which start nothing further; ignore_error is exact "
               "(command level: that shell command's exit status only; task level: exit statuses of its own entries only); exit codes from Gen.Codes: "
